@@ -202,6 +202,7 @@ fn main() {
         route_enum: arg_or("route", "direct") == "enum",
     };
     let threads = arg_u64("threads", 8) as usize;
+    let skip_hang = flag("skip-known-hang");
     let maxstates = arg_u64("maxstates", 2_000_000) as usize;
     let prefix = arg_or("out", "/dev/shm/bfs");
     // `--out X.w00.ndjson` style from run_workers: strip the suffix to get a prefix
@@ -262,7 +263,7 @@ fn main() {
                                 steps.push(json!({"c": call("queries-changed-state", "", ""), "r": r_ok(json!([])), "same": "f", "post": after}));
                             }
                             for (ci, c) in muts.iter().enumerate() {
-                                if known_hang(c, &pre) {
+                                if skip_hang && known_hang(c, &pre) {
                                     skipped_hang.fetch_add(1, Ordering::Relaxed);
                                     continue;
                                 }
